@@ -116,6 +116,10 @@ func witnesses(ops hx.Counter, withPoll bool) []Case {
 	tag("settings_extremes", runSettings(SettingsParams{Seed: 9191, Steps: []string{"MISCHANCE_CONFIDENCE=0", "MAX_MISCHANCE=1", "INACTIVE_RANK_DECREASE_PERCENT=1", "UBI_HARDCAP=0", "MINIMUM_PROPOSAL_END_TIME=1"}}, ops))
 	tag("settings_maxima", runSettings(SettingsParams{Seed: 9192, Steps: []string{"MAX_MISCHANCE=18446744073709551615", "UBI_HARDCAP=18446744073709551615", "MINIMUM_PROPOSAL_END_TIME=18446744073709551615", "DOWNTIME_INACTIVE_DURATION=18446744073709551615", "VOTE_QUORUM=1"}}, ops))
 	tag("export_import_then_hooks", runExportImport(9201, ops))
+	// the actor / permission indexes the gov end-blocker enumerates, rewritten by other writers, then proposals of every type
+	for i, pert := range []string{"rotate", "rotate-validator", "unassign-role", "blacklist", "remove-permission", "none"} {
+		tag("actor_perturbed_"+pert, runPerturb(PerturbParams{Seed: 9210 + uint64(i), Individual: []int{0, 2, 4, 6}, ViaRole: []int{1, 3, 5}, Councilor: i%2 == 0, VoteBefore: true, Perturb: pert}, ops))
+	}
 	// the sanctioned halt
 	tag("upgrade_halt_sanctioned", runUpgrade(UpgradeParams{Seed: 9061, Instate: false, Skip: false}, ops))
 	tag("upgrade_instate_skip_no_halt", runUpgrade(UpgradeParams{Seed: 9062, Instate: true, Skip: true}, ops))
